@@ -34,7 +34,8 @@ Exponents == {-12, -9, -6, -3, 3, 4, 6} \cup {-1, 0, 1}      \* the last three l
 Tols == {"1e-9", "1e-6", "1e-3"}
 Positions == {"first", "mid", "last"}                     \* which component of the part is perturbed
 
-Expected(m) == CASE m.mut = "copy" -> "T"
+\* "idform": the same ids handed over in another container (tuple, integer array): the same edge / graph
+Expected(m) == CASE m.mut \in {"copy", "idform"} -> "T"
                  [] m.mut = "perturb" -> IF m.e <= -3 THEN "T" ELSE IF m.e >= 3 THEN "F" ELSE "either"
                  [] OTHER -> "F"
 
@@ -43,6 +44,7 @@ Init == /\ dir = "none" /\ verdict = "none"
              \/ case = [cls |-> c, mut |-> "copy", part |-> "-", pos |-> "-", e |-> 0, tol |-> t]
              \/ \E p \in Parts(c), q \in Positions, x \in Exponents : case = [cls |-> c, mut |-> "perturb", part |-> p, pos |-> q, e |-> x, tol |-> t]
              \/ \E s \in Structural(c) : case = [cls |-> c, mut |-> s, part |-> "-", pos |-> "-", e |-> 0, tol |-> t]
+             \/ c[1] \in {"odo", "lm", "custom", "graph"} /\ case = [cls |-> c, mut |-> "idform", part |-> "-", pos |-> "-", e |-> 0, tol |-> t]
              \/ \E c2 \in Classes : c2 # c /\ c2[1] = c[1] /\ c[1] # "custom" /\ case = [cls |-> c, mut |-> "other", part |-> c2[2], pos |-> "-", e |-> 0, tol |-> t]
 Compare(d) == dir = "none" /\ dir' = d /\ verdict' = Expected(case) /\ case' = case
 Next == Compare("xy") \/ Compare("yx")
